@@ -37,6 +37,8 @@ def file_cfg(rng, tier, prop):
            "fault_kind": rng.choice(["error", "error", "crash"]), "n_faults": rng.randint(1, 2),
            "sweep": faults and rng.random() < (0.15 if tier == "quick" else 0.5),
            "explicit_format": rng.random() < 0.3, "c20_rate": {"C19": 0.15, "C20": 0.7, "C15": 0.3}[prop]}
+    if rng.random() < 0.2:
+        cfg["inf_rate"] = 0.1        # infinities are ordinary float data: they must come back as they went in
     if rng.random() < 0.06:
         cfg["max_len"], cfg["max_rank"], cfg["big"] = rng.choice([rng.randint(6, 24)] * 4 + [rng.randint(101, 130)]), min(cfg["max_rank"], 2), True
     return cfg
@@ -69,7 +71,7 @@ def gen_dataset_spec(rng, cfg, dims_labels=None, nvars=None, names=None):
         vd = rng.sample(list(dims), k)
         dt = rng.choice(cfg["dtypes"])
         shape = [len(dims[d]) for d in vd]
-        vals = V.gen_values(rng, shape, dt, cfg["nan_rate"])
+        vals = V.gen_values(rng, shape, dt, cfg["nan_rate"], cfg.get("inf_rate", 0.0))
         attrs = gen_meta(rng, cfg["meta_density"])
         if dt != "O" and rng.random() < 0.12:
             attrs["missing_value"] = -99            # declared missing value: never occurs in this variable's own data
@@ -245,7 +247,10 @@ class FileWorld(object):
         from dsim.worlds.arrays import Skip
         for _ in range(6):
             try:
-                return file_ops.gen_step(self, rng)
+                st = file_ops.gen_step(self, rng)
+                if st is not None and st.get("op") in ("ds_write", "arr_write") and rng.random() < 0.15:
+                    st["alias"] = True      # the documented alias .write(...) of .write_nc(...)
+                return st
             except (IndexError, ValueError, KeyError, Skip):
                 continue        # a generator met a state it has no candidate for (empty choice): draw again
         return {"op": "ds_write", "path": PATHS[0], "mode": "w", "spec": gen_dataset_spec(rng, self.cfg)}
